@@ -1,6 +1,41 @@
-(** C08 — provisional statement file (whole-type theorems are being added). *)
-From Asn1V Require Import Base.Prelude Base.Bits Base.BitsProofs Syntax.Asn1 Per.UperImpl Per.UperPrim.
+(** C08 — decoding arbitrary bytes always terminates within bounded time and
+    memory.  Statements only.
 
-Theorem C08_length_determinant_prefix_behaviour : PB read_len.
-Proof. exact PB_read_len. Qed.
-Print Assumptions C08_length_determinant_prefix_behaviour.
+    What is machine-checked here (UPER model; other codecs are added with their
+    models): every decoder of the model is a total Coq function — each Python
+    loop of per.py/uper.py is a structural recursion (on a decoded count, on
+    the member list, on the presence bits) accepted by the guard checker — and
+    the one loop whose trip count is not a decoded count, the 16K-fragment
+    loop [read_length_determinant_chunks], never needs more iterations than
+    (remaining bits)/8 + 1: the input-derived bound of the model is never
+    exhausted, for ANY input.  A successful decode never consumes more than
+    the input.  That one model step is O(1) Python work, and wall-clock/memory
+    of the real interpreter, are explored by the resource-limited hostile-input
+    runs of the check, not proved (see DESIGN.md section 6 C08). *)
+From Asn1V Require Import Base.Prelude Base.Bits Syntax.Asn1 Per.UperImpl Per.UperPrim Per.UperPB Per.UperTotal.
+
+Theorem C08_uper_fragment_loop_bounded_partial :
+  forall (A : Type) (rd : reader A), PB rd -> never_fuel rd -> never_fuel (read_frag_auto rd).
+Proof. exact @read_frag_auto_not_fuel. Qed.
+Print Assumptions C08_uper_fragment_loop_bounded_partial.
+
+Theorem C08_uper_decode_in_bounds :
+  forall numeric fuel e t data v n,
+    uper_decode numeric fuel e t data = Ok (v, n) -> (n <= 8 * length data)%nat.
+Proof. exact uper_decode_in_bounds. Qed.
+Print Assumptions C08_uper_decode_in_bounds.
+
+(** Every hostile input yields a definite outcome of the model decoder: a value
+    or an error — the statement is the totality of [uper_decode], i.e. its
+    acceptance by Coq; this instance pins one malformed input per outcome. *)
+Example C08_outcomes :
+  uper_decode false 5 [] (TSeqOf false (TInt IcNone) SzNone) [0x02; 0x01; 0x05] = Err EOutOfData /\
+  uper_decode false 5 [] (TSeqOf false (TInt IcNone) SzNone) [0xc5] = Err EDecode /\
+  uper_decode false 5 [] (TSeqOf false (TInt IcNone) SzNone) [0x01; 0x00] = Err (EForeign "ValueError") /\
+  uper_decode false 5 [] (TSeqOf false TNull SzNone) [0x03; 0xff] = Ok (VList [VNone; VNone; VNone], 8%nat).
+Proof. repeat split; vm_compute; reflexivity. Qed.
+Print Assumptions C08_outcomes.
+
+(* OPEN: C08_uper_dec_steps : an instrumented step count linear in (length data + 1) times a
+   type-dependent constant (fixed-size SEQUENCE OF of zero-width elements make the constant
+   exponential in the nesting, so the bound must carry the declared sizes). *)
